@@ -50,6 +50,16 @@ CHECKS = {
    "Part A: generated write/read/remove/list/reopen sequences over FilesystemStore and FilesystemStoreV2 (sync and async API, empty namespaces, maximum-length names, 0..256 kB values) must equal a reference BTreeMap; out-of-order completion of async writes must respect issue order; 2..8 concurrent threads are checked with a sound linearizability-style oracle. Part B: for every recorded history of a real channel persisted through MonitorUpdatingPersister (maximum_pending_updates in {0,1,2,3,5,10,100}) EVERY prefix of the store-operation log, crossed with lazy-removal outcomes, is recovered by a fresh persister: recovery succeeds, includes every update reported as persisted, equals the handed-over monitor plus recorded updates, clean-up never removes a needed update; every store operation is additionally failed once. Fault enumeration over the explored histories; thread interleavings are sampled by the OS, not enumerated.",
    "Crash consistency is decided at KVStore-operation granularity (fsync/power-loss ordering is not observable in-process); lazy-removal subsets are sampled per prefix (none, all, two subsets).",
    "DESIGN.md §6 C19"),
+ "C17": ("vprop", "exploration",
+   "model-based property testing of NetworkGraph / P2PGossipSync against an independent reference interpreter of the BOLT-7 accept/reject rules (own signature verification), metamorphic order/duplication confluence, and single-bit tampering of signed gossip",
+   "Generated gossip universes (3-15 nodes, channels with correct / wrong / missing UTXO answers, valid, wrongly signed, re-signed, altered, stale, duplicated, equal-timestamp and conflicting messages) are delivered through both update_* and handle_* entry points interleaved with permanent-failure reports, stale pruning at generated times, serialization round trips and (thorough) rapid-gossip-sync snapshots built by the harness's own encoder; after every operation the library's verdict and normalized read-only view must equal the reference's; the same universe delivered in 2-4 different orders with duplication must give equal graphs; every single-bit flip of a signature or signed part must be rejected with the view unchanged. Search, not proof.",
+   "Wall-clock staleness checks on channel_update are compiled out under the _test_utils feature; timestamps stay at least 2 h from the one- and two-week edges; gossip queries, async UTXO lookups and RGS v2 are not covered.",
+   "DESIGN.md §6 C17"),
+ "C16": ("vprop", "exploration",
+   "property-based testing of find_route over generated graphs / first hops / hints / blinded tails / scorers against an independent route validator, plus a completeness check against the harness's own path search in a strong-slack regime",
+   "Millions of generated queries over graphs built through the public gossip API (2-40 nodes, parallel channels, cycles, per-direction enabled/disabled/missing, zero to extreme fees, capacities present or not), with hand-built first hops, route hints, blinded tails, generated amounts at every limit +-1, path-count / path-length / CLTV / fee caps, excluded channels and scorers with generated history: every returned route is checked by an independent validator (connectivity, usable directions, per-hop minimum and jointly-counted maximum / capacity / first-hop limit, BOLT-7 fee owed to every forwarding node, CLTV deltas and caps, delivered value without a superfluous part, fee cap, path length); when the harness's own search finds a single path with strong slack the router must not report failure. Search, not proof.",
+   "Completeness is asserted only in the strong-slack regime (no usable edge near binding after the saturation shift, amount x ppm far below 2^64); in-flight HTLCs are passed through the scorer wrapper only; trampoline routes are not generated. Listed known findings: first-hop peer that is also a blinded-path introduction node (stale payer entry), max_final_value rounding (hop carries a few msat above its maximum), reachable unreachable!() when merged MPP parts overflow amount x ppm. One defect repaired in /repo (a7dbe7e).",
+   "DESIGN.md §6 C16"),
 }
 
 NOT_YET = {
